@@ -7,9 +7,20 @@ PROP = {
     "trusted": [
         "no hook: the harness uses only the public API (secs2 constructors and shortcuts, secs2.Equal, hsms.NewDataMessage / Derive().Build() / NewDataMessageFromHeader, hsmsss.New over net.Pipe for the send calls)",
     ],
+    "harness_timeout": 3000,
     "assumptions": [
         "strconv.ParseFloat is a parameter of the float constructor model (the driver supplies strconv's answer per string); strconv.ParseInt/ParseUint (base 0, 64 bit) are modelled in Gallina and compared on every string case",
         "binary64 ordering of finite values = (sign, magnitude bits) ordering; float64(int) exact for |int| <= 2^53; float32<->float64 conversions computed on bit patterns (NaN payloads as on amd64)",
         "theorems about element counts carry length < 2^31 (the code stores the count in an int32)",
     ],
 }
+
+
+def _args(run, tier, n, cases):
+    a = ["-seed", run.seed, "-n", n, "-tier", tier, "-out", cases]
+    if tier == "thorough":
+        a.append("-big")   # 2^31-element BooleanItem: reproduces known finding C16-count-int32 (~5 GiB, ~25 s)
+    return [a]
+
+
+PROP["harness_args"] = _args
